@@ -467,7 +467,7 @@ type c17Run struct {
 	ino       *c17Inotify
 	verbatim  map[string]bool   // files whose last accepted upload was stored under its incoming number, unchanged
 	incoming  map[string]string // <track>/<incoming number><ext> -> hash of the last body uploaded with that number
-	pending   []*c17Pending   // slow uploads whose body has not arrived yet
+	pending   []*c17Pending     // slow uploads whose body has not arrived yet
 	slowDone  bool
 	// slowOverStart: an upload was in flight across the channel start
 	slowOverStart bool
